@@ -1,3 +1,4 @@
 import DDS.Props.All
+import DDS.Props.Lift
 import DDS.Props.NonVacuity
 import DDS.Driver
